@@ -94,6 +94,7 @@ static inline EpochManager_ProtectedNode *verif_new_EpochManager_ProtectedNode(E
   EP.nodes_allocated++;
   EP.new_node_upper = v.upper_epoch_;
   EP.new_node_next = v.next;
+  EP.head_upper = v.upper_epoch_;   /* the code links every new node as the head (checked by post.list-node-for-a-new-range-only) */
   return p;
 }
 static inline void verif_delete_EpochManager_ProtectedNode(EpochManager_ProtectedNode *p)
